@@ -22,18 +22,18 @@ import (
 )
 
 type HarnessSpec struct {
-	Pkg      string            `json:"pkg"`
-	Func     string            `json:"func"`
-	Tier     string            `json:"tier"` // "quick" (both tiers) or "thorough"
-	Args     map[string]string `json:"args"`
-	Reach    []string          `json:"reach"`
-	Note     string            `json:"note"`
-	NoReplay bool              `json:"no_replay"` // schedule-dependent: counterexamples are engine traces
-	NoWitness bool             `json:"no_witness"`
-	Gen         *GenSpec       `json:"gen"`
-	CompileOnly bool           `json:"compile_only"`
-	Race     bool              `json:"race"`
-	Timeout  int               `json:"timeout_s"`
+	Pkg         string            `json:"pkg"`
+	Func        string            `json:"func"`
+	Tier        string            `json:"tier"` // "quick" (both tiers) or "thorough"
+	Args        map[string]string `json:"args"`
+	Reach       []string          `json:"reach"`
+	Note        string            `json:"note"`
+	NoReplay    bool              `json:"no_replay"` // schedule-dependent: counterexamples are engine traces
+	NoWitness   bool              `json:"no_witness"`
+	Gen         *GenSpec          `json:"gen"`
+	CompileOnly bool              `json:"compile_only"`
+	Race        bool              `json:"race"`
+	Timeout     int               `json:"timeout_s"`
 }
 
 // GenSpec: run the current tree's stub/proxy generator on an IDL file; the output is overlaid into the package.
@@ -73,13 +73,13 @@ type workerOut struct {
 }
 
 type harnessRun struct {
-	spec    HarnessSpec
-	out     *workerOut
-	err     string
-	wall    float64
-	stderr  string
-	replays []replayOutcome
-	skipped bool
+	spec       HarnessSpec
+	out        *workerOut
+	err        string
+	wall       float64
+	stderr     string
+	replays    []replayOutcome
+	skipped    bool
 	transcript string
 	cross      map[string]interface{}
 }
@@ -413,6 +413,17 @@ func cmdCheck(args []string) {
 			f := filepath.Join(scratch, fmt.Sprintf("wit-%s-%s.json", r.spec.Func, sanitize(lbl)))
 			writeReplay(f, prop, r.spec, "witness", lbl, ins, nil)
 			o := rp.run(r.spec, f, false)
+			// the native harness waits for quiescence by sleeping: on a loaded machine a witness of a
+			// concurrent scenario may be cut short. A disagreement is re-tried with longer waits before
+			// it counts (an encoding error does not go away with time).
+			for _, ms := range []int{200, 600} {
+				if o.err != "" || !((o.assertFail != "" && !engineAlsoFails(r, o.assertFail)) || o.panicked || !o.reached[lbl]) {
+					break
+				}
+				rp.quiesceMs = ms
+				o = rp.run(r.spec, f, false)
+				rp.quiesceMs = 0
+			}
 			ro := replayOutcome{File: f, Kind: "witness", Label: lbl}
 			if o.err != "" {
 				inconclusive = append(inconclusive, fmt.Sprintf("%s: witness replay failed to run: %s", r.spec.Func, o.err))
@@ -649,6 +660,7 @@ type replayer struct {
 	bins                         map[string]string // pkg -> test binary
 	binErr                       map[string]string
 	mu                           sync.Mutex
+	quiesceMs                    int // when > 0: how long the native harness sleeps to reach quiescence
 }
 
 type replayOut struct {
@@ -765,6 +777,9 @@ func (rp *replayer) run(h HarnessSpec, replayFile string, expectHang bool) repla
 		cmd.Dir = rp.repo // overlay-only package
 	}
 	cmd.Env = append(os.Environ(), "VERIF_REPLAY="+replayFile, "VERIF_HARNESS="+h.Func, "GOTRACEBACK=all")
+	if rp.quiesceMs > 0 {
+		cmd.Env = append(cmd.Env, fmt.Sprintf("VERIF_QUIESCE_MS=%d", rp.quiesceMs))
+	}
 	// bound memory: a counterexample for the allocation obligation must not take the machine down
 	shell := fmt.Sprintf("ulimit -v 6000000; exec \"$@\"")
 	full := exec.Command("bash", append([]string{"-c", shell, "replay"}, cmd.Args...)...)
@@ -893,7 +908,7 @@ func writeEvidence(root, prop, tier string, seed int, ps *PropertySpec, runs []*
 	}
 	cov := map[string]interface{}{
 		"states": states, "transitions": transitions, "traces_validated_against_impl": nValidated,
-		"samples": samples,
+		"samples":     samples,
 		"explanation": "states = symbolic path classes explored to completion (each stands for every input satisfying its path condition); transitions = solver-decided decisions (branch feasibility, value enumeration, scheduler choices); traces_validated_against_impl = witness and counterexample models replayed against the native build and found to agree",
 		"obligations": oblig, "discharged": disch,
 		"functions_encoded": fl, "bounds": ps.Bounds,
@@ -981,8 +996,17 @@ func crossSolver(path string) map[string]interface{} {
 	if err != nil {
 		return map[string]interface{}{"error": err.Error()}
 	}
-	if len(data) > 400<<20 {
-		return map[string]interface{}{"skipped": "transcript larger than 400 MiB"}
+	truncated := false
+	if limit := 96 << 20; len(data) > limit {
+		// a prefix of the transcript is self-contained (definitions precede their uses): keep whole
+		// queries up to the limit and say so
+		cut := bytes.LastIndex(data[:limit], []byte("\n(check-sat"))
+		if cut < 0 {
+			return map[string]interface{}{"skipped": "transcript larger than 96 MiB without a query boundary"}
+		}
+		end := bytes.IndexByte(data[cut+1:], '\n')
+		data = data[:cut+1+end+1]
+		truncated = true
 	}
 	var sb strings.Builder
 	hasFP := false
@@ -1013,8 +1037,27 @@ func crossSolver(path string) map[string]interface{} {
 		}
 		return ans, ""
 	}
+	// the three solvers work through the transcript at the same time
+	var a1, a2 []string
+	var e1, e2 string
+	var swg sync.WaitGroup
+	swg.Add(1)
+	go func() { defer swg.Done(); a1, e1 = run("z3-new", []string{"-in"}, text) }()
+	if !hasFP {
+		swg.Add(1)
+		go func() {
+			defer swg.Done()
+			ctext := regexp.MustCompile(`\(set-option :timeout \d+\)`).ReplaceAllString(text, "")
+			ctext = "(set-logic ALL)\n" + strings.ReplaceAll(ctext, "(reset)", "(reset)\n(set-logic ALL)")
+			a2, e2 = run("cvc5", []string{"--incremental", "--produce-models"}, ctext)
+		}()
+	}
 	base, e0 := run("z3", []string{"-in"}, text)
+	swg.Wait()
 	res := map[string]interface{}{"queries": len(base)}
+	if truncated {
+		res["scope"] = "first 96 MiB of the transcript (whole queries)"
+	}
 	if e0 != "" {
 		res["error"] = "z3: " + e0
 		return res
@@ -1043,14 +1086,10 @@ func crossSolver(path string) map[string]interface{} {
 		res[name] = fmt.Sprintf("%d disagreements, %d unknown", d, unk)
 		disagreements += d
 	}
-	a1, e1 := run("z3-new", []string{"-in"}, text)
 	compare("z3-5.1.0", a1, e1)
 	if hasFP {
 		res["cvc5"] = "skipped: transcript uses fp.to_ieee_bv (z3-specific)"
 	} else {
-		ctext := regexp.MustCompile(`\(set-option :timeout \d+\)`).ReplaceAllString(text, "")
-		ctext = "(set-logic ALL)\n" + strings.ReplaceAll(ctext, "(reset)", "(reset)\n(set-logic ALL)")
-		a2, e2 := run("cvc5", []string{"--incremental", "--produce-models"}, ctext)
 		compare("cvc5-1.0", a2, e2)
 	}
 	res["disagreements"] = disagreements
